@@ -14,3 +14,4 @@ pub mod packet;
 pub mod query;
 pub mod service;
 pub mod filter;
+pub mod glue;
